@@ -17,22 +17,22 @@ CLAIMS = {
  "C14": ("Lean theorems characterise each panic site of the front end (which token shapes reach it, which never do) and prove the index loop terminates; every generated, out-of-subset and mutated text is run through Ast::new and Generator::generate and the outcome class and panic site are compared with the model. The property is false on the current tree at the recorded K6 sites (known findings); any other panic is a violation",
          "trusted: Lean kernel and the three standard axioms; pest modelled (PEG totality not proved); panics observed by catch_unwind + hook",
          "Lean 4 proof (panic-site characterisation) + differential correspondence (T3)", "DESIGN.md §6 C14"),
- "C01": ("Lean theorems: the leaf readers invert the RFC 4506 encoding for every payload, suffix and offset (whole-specification round trip under construction); the emitters, the plan evaluator and the runtime are an executable Lean model whose results are compared with the compiled generated decoders on reference-generated values of every declared type (both families), and the decoded value is compared with the documented Rust value computed by the independent reference Fx.Xdr",
+ "C01": ("Lean theorem C01_roundtrip_supported, for every specification in the decidable supported subset (Supported a), every declared type, every well-typed value x, every suffix and offset: the generated decoder (emitters run inside Lean: generateModule a = ok m) applied to enc(x) ++ s returns exactly the documented Rust value repr(x) and leaves the cursor just after the encoding; unions included (C06_match_selects is proved, not assumed). The emitters, plan evaluator and runtime are an executable Lean model compared with the compiled generated decoders on reference-generated values of every declared type (both families), and the driver reports Supported for each campaign specification (98 of 102; the others use fall-through into a data default)",
          "trusted: Lean kernel, standard axioms; Rust semantics of the emitted subset modelled (Fx/Eval.lean, tied by T2); reference Fx/Xdr.lean is my reading of RFC 4506 + README; rustc/cargo",
          "Lean 4 proof + differential correspondence on compiled generated code (T2) + independent reference", "DESIGN.md §6 C01"),
- "C02": ("Lean theorems: every RFC encoding is 4-aligned; blanket size rules at value level; (consumed = wire_size for all bytes under construction). Tie: wire_size() of every decoded value and bytes consumed vs |enc(x)| from the reference, and vs the model's evaluation of the emitted size impls",
+ "C02": ("Lean theorems: C02_consumed_all — for ALL byte strings (valid or not), every plan satisfying the decidable Plans.SizeExact', a successful decode consumes exactly wire_size() of the value it returns; C02_consumed_all_supported — Supported a implies SizeExact' of the emitted plans; every RFC encoding is 4-aligned; array stepping exact; K1 witnesses (bare opaque) proved as counter-examples outside the subset. Tie: wire_size() of every decoded value and bytes consumed vs |enc(x)| from the reference and vs the model's evaluation of the emitted size impls",
          "as C01", "Lean 4 proof + differential correspondence (T2) + independent reference", "DESIGN.md §6 C02"),
  "C03": ("Lean theorems for ALL byte strings and all plans: the two families are one emitter under two templates (equal plans, equal results); a successful decode leaves the cursor advanced by k <= remaining with the remaining bytes untouched (induction over the five mutual evaluators). Tie: both families on every input of the campaign, suffix and leading-offset variants",
          "as C01", "Lean 4 proof (induction on fuel over the evaluator) + differential correspondence (T2)", "DESIGN.md §6 C03"),
- "C04": ("Lean theorem for ALL byte strings, every fuel, every well-formed plan (decidable Plans.Ok): no evaluator reaches panic/abort (induction over the five mutual evaluators on top of one lemma per reader). Tie: outcome class on every strict prefix, boundary word, targeted invalid word and random input; optional chains to depth 10^4 (10^5 thorough). Partial: stack depth is outside the model (finding K5)",
+ "C04": ("Lean theorems for ALL byte strings, every fuel: C04_no_panic — no evaluator reaches panic/abort under the decidable Plans.Ok (induction over the five mutual evaluators on one lemma per reader); C04_no_panic_supported — Supported a implies Plans.Ok of the emitted plans; frozen pre-fix reader kept as a proved counter-example. Tie: outcome class on every strict prefix, boundary word, targeted invalid word and random input; optional chains to depth 10^4 (10^5 thorough). Partial: stack depth is outside the model (finding K5)",
          "as C01; panics observed by catch_unwind, aborts by child-process death", "Lean 4 proof (no-panic invariant) + differential correspondence (T2, T4)", "DESIGN.md §6 C04"),
  "C05": ("Lean theorems (reader level, all buffers): over-max and over-available lengths/counts are InvalidLength, length = max accepted, the emitter's bound equals the declared literal/constant. Tie + reference: every strict prefix rejected; at every bounded position marked by the reference the count word set above the maximum must give InvalidLength",
          "as C01", "Lean 4 proof + differential correspondence (T2) + reference-marked hostile inputs", "DESIGN.md §6 C05"),
- "C06": ("Lean theorems for every 32-bit word: bool, optional marker, enum and union-without-default strictness with the documented error payloads; UTF-8 check. Tie + reference: undeclared values at every bool/marker/enum/discriminant/string position the reference marks, and the arm selected by every declared label on valid values",
+ "C06": ("Lean theorems: C06_match_selects — for every supported specification, every union and every discriminant word the switch type admits, the emitted match selects exactly the declared arm (numerals, constants, enum members, TRUE/FALSE, fall-through groups, default only when no label denotes the word); C06_undeclared_rejected — with no default the decoder returns UnknownVariant(d as i32); bool / optional-marker / enum strictness for every 32-bit word with the documented payloads; UTF-8 check. Tie + reference: undeclared values at every bool/marker/enum/discriminant/string position the reference marks, and the arm selected by every declared label on valid values",
          "as C01; UTF-8 validity is a DFA in Lean compared with String::from_utf8 in T4", "Lean 4 proof + differential correspondence (T2) + reference-marked hostile inputs", "DESIGN.md §6 C06"),
- "C08": ("Lean theorems: the two readers that produce opaque leaves return windows of the input at the wire offset (value-level invariant under construction; in the model every Bytes is a view by construction). The weight is on the tie: as_ptr() of every opaque leaf of every successfully decoded value, relative to the input allocation, equals the offset the reference computes; inputs sit at a leading offset inside a larger allocation",
+ "C08": ("Lean theorem C08_views for ALL byte strings and all plans: every opaque leaf of every successfully decoded value is the window of the input at its wire offset (value-level invariant by induction over the evaluators; combined with C01 the offset is the one the encoding assigns). Tie: as_ptr() of every opaque leaf of every successfully decoded value, relative to the input allocation, equals the offset the reference computes; inputs sit at a leading offset inside a larger allocation",
          "as C01; pointer provenance observed with as_ptr()", "Lean 4 proof + pointer-level differential correspondence (T2)", "DESIGN.md §6 C08"),
- "C09": ("Lean theorems: the single reservation site logs min(count, bytes present) before decoding elements; string copies equal the payload present. Tie: counting global allocator around every decode: each request <= size_of(largest type) x bytes present, and the request log equals the model's event log",
+ "C09": ("Lean theorem C09_requests_bounded for ALL byte strings and plans: every allocation request logged during a decode (successful or not) is bounded by the bytes present at that point (reservation = min(count, remaining), string copies = payload present). Tie: counting global allocator around every decode: each request <= size_of(largest type) x bytes present, and the request log equals the model's event log",
          "as C01; allocator behaviour of Vec::with_capacity / collect / Box::new observed, not modelled beyond request sizes", "Lean 4 proof + allocation-log differential correspondence (T2, T4)", "DESIGN.md §6 C09"),
  "C07": ("rustc is not modelled: a decidable Lean judgement outputOk (names resolve, parameter lists, field/payload types of every decode expression, variant arity, pattern typing, casts, identifier hygiene, no infinite type) stands in for it and is validated against rustc's verdict in both directions on a mixed batch every run; Lean theorems give the structural API (three impls per declaration under its own name, identical families, consistent parameters). Tie: every supported specification of the campaign is compiled with both derive lines together with Dump impls and a dispatcher that name every documented field, variant and trait impl. Partial: outputOk ~ rustc is empirical",
          "trusted: Lean kernel, standard axioms; rustc/cargo; harness/backgen's reading of the documented shape", "Lean 4 proof (structural API) + rustc as oracle + judgement validated against rustc", "DESIGN.md §6 C07"),
